@@ -7,6 +7,7 @@ import (
 	"strings"
 	"time"
 
+	"github.com/enbility/ship-go/model"
 	"github.com/enbility/ship-go/ship"
 
 	"verif/simrt"
@@ -221,8 +222,54 @@ func c14Flow(x *Ctx) {
 		noPeerHelloEv: true,
 		timelyTail:    true,
 	}
-	s := newShip1(x, o)
+	// a peer that is slow once: in a phase with a timer of its own that timer may end the
+	// handshake; a timer armed in an earlier phase must not
+	slow := x.Feat(FeatMoreInputs) && x.Chance("slow-peer-once", 0.5)
+	if slow {
+		o.slowK = 1 + x.Choose("slow-k", 12)
+		o.slowD = []time.Duration{11 * time.Second, 35 * time.Second, 70 * time.Second, 130 * time.Second}[x.Choose("slow-d", 4)]
+		x.SigAdd(fmt.Sprintf("slow=%d/%v", o.slowK, o.slowD))
+	}
+	var s *ship1
+	curPhase, armPhase, probed := 0, -1, false
+	armEpoch := int64(-1)
+	hook := func(name string, args []any) {
+		if s == nil || len(args) == 0 || args[0] != any(s.conn) {
+			return
+		}
+		switch name {
+		case "ship.ShipConnection.setState":
+			if st, ok := args[1].(model.ShipMessageExchangeState); ok {
+				if ph := phaseOf(int(st)); ph >= 0 {
+					curPhase = ph
+					// a handler that arms the timer and then enters the next phase (access
+					// methods) has armed that phase's timer
+					if armEpoch == s.epoch.Load() && ph > armPhase {
+						armPhase = ph
+					}
+				}
+			}
+		case "ship.ShipConnection.setHandshakeTimer":
+			probed = true
+			armPhase, armEpoch = curPhase, s.epoch.Load()
+		case "ship.ShipConnection.handleState":
+			if to, ok := args[1].(bool); ok && to {
+				s.epoch.Add(1)
+				x.Ev("t-timeout", "U", fmt.Sprintf("armed-in-phase-%d", armPhase), curPhase)
+				if armPhase >= 0 && armPhase < curPhase {
+					x.Violate("timeout-from-earlier-phase", fmt.Sprintf("phase%d>%d", armPhase, curPhase), fmt.Sprintf("%s role: a timeout was delivered in phase %d by a timer armed in phase %d (0 init, 1 hello, 2 protocol, 3 pin, 4 access); states %v", s.role, curPhase, armPhase, stateSeq(x, "U")))
+				}
+			}
+		}
+	}
+	simrt.ProbeHook.Store(&hook)
+	s = newShip1(x, o)
 	x.OnFinal(func() {
+		if !probed {
+			// every handshake arms a timer with its first step
+			x.HarnessError("probe ship.ShipConnection.setHandshakeTimer never fired: the instrumentation does not match this tree")
+			return
+		}
 		completed := false
 		pending := false
 		for _, e := range x.Events() {
@@ -240,7 +287,7 @@ func c14Flow(x *Ctx) {
 				// a teardown is charged to a timer when the terminal state is reported
 				// from a goroutine the connection spawned itself (its timer) or names a timeout
 				byTimer := strings.Contains(e.B, "timeout") || strings.Contains(e.Task, "/ship/")
-				if isTerminalState(e.N) && byTimer {
+				if isTerminalState(e.N) && byTimer && !slow {
 					x.Violate("timely-connection-torn-down", fmt.Sprintf("state%d", e.N), fmt.Sprintf("%s role, trust=%s, user=%s: the peer answered every message and prolongation request in time, yet a timer goroutine (%s) reported state %d (%s) at %v; states %v", s.role, s.trustMode, s.userPlan, e.Task, e.N, e.B, e.T, stateSeq(x, "U")))
 					return
 				}
